@@ -22,10 +22,9 @@ EXTENDS HeaderRules, SequencesExt, Json, IOUtils, TLC
 
 CONSTANTS Family,      \* "A" | "B" | "C" | "D"
           LN, LV,      \* A: names / values up to this length alone
-          LP,          \* A: pairs name x value, both up to this length (when Thin: one up to LP, the other up to LP-1)
-          Thin,        \* A: TRUE = thin pairs
+          LP,          \* A: pairs name x value, both up to this length
           K,           \* B: sequence length
-          Dup,         \* D: TRUE = all pairs of spellings, FALSE = pairs of a few
+          Dup,         \* D: TRUE = pairs out of eight spellings, FALSE = pairs out of three
           NB,          \* D: at most this many DATA frames
           AllTemplates,\* TRUE = also pushed responses and trailers of responses (A, B, C)
           Part         \* 0 = the whole family; n > 0 = only its n-th part (A, B, C: the n-th template;
@@ -60,10 +59,7 @@ OverKinds(Tails) == UNION {{Build(t, Base(t[1]) \o x) : x \in Tails} : t \in Tem
 \* --- A ---
 Probes(x) ==
   {<<n, VA>> : n \in Strs(Alphabet, 0, LN)} \cup {<<VA, v>> : v \in Strs(Alphabet, 0, LV)}
-  \cup (IF Thin
-        THEN {<<n, v>> : n \in Strs(Alphabet, 0, LP - 1), v \in Strs(Alphabet, 0, LP)}
-             \cup {<<n, v>> : n \in Strs(Alphabet, 0, LP), v \in Strs(Alphabet, 0, LP - 1)}
-        ELSE {<<n, v>> : n \in Strs(Alphabet, 0, LP), v \in Strs(Alphabet, 0, LP)})
+  \cup {<<n, v>> : n \in Strs(Alphabet, 0, LP), v \in Strs(Alphabet, 0, LP)}
 CasesA(x) == OverKinds({<<p>> : p \in Probes(x)})
 
 \* --- B ---
@@ -80,8 +76,9 @@ CasesC(x) == OverKinds(Strs(Pool, 1, 3))
 Spell == {<<48>>, <<49>>, <<50>>, <<51>>, <<48, 49>>, <<49, 48>>, <<43, 49>>, <<45, 49>>, <<45, 48>>,
           <<49, 95, 48>>, <<>>, <<97>>, <<49, 44, 49>>, <<49, 32, 49>>, <<11, 49>>}
 SpellFew == {<<49>>, <<50>>, <<48, 49>>}
+SpellSome == SpellFew \cup {<<48>>, <<43, 49>>, <<45, 48>>, <<49, 95, 48>>, <<97>>}
 CLs(x) == {<<>>} \cup {<<s>> : s \in Spell}
-       \cup {<<s, t>> : s \in (IF Dup THEN Spell ELSE SpellFew), t \in (IF Dup THEN Spell ELSE SpellFew)}
+       \cup {<<s, t>> : s \in (IF Dup THEN SpellSome ELSE SpellFew), t \in (IF Dup THEN SpellSome ELSE SpellFew)}
 CLHeaders(c) == [i \in DOMAIN c |-> <<ContentLength, c[i]>>]
 Bodies(x) == Strs(0..2, 0, NB)
 DataFrames(b) == [i \in DOMAIN b |-> DF(b[i])]
